@@ -1,6 +1,6 @@
 SPECIFICATION Spec
 CONSTANTS
   Emit = TRUE
-  HookMode = FALSE
+  HookMode = TRUE
 INVARIANT Partition
 CHECK_DEADLOCK FALSE
